@@ -89,7 +89,11 @@ func genC15(t *rapid.T) *Case {
 		// a single very large token (text run, attribute value or comment) between ordinary soup:
 		// destinations that buffer or coalesce writes must keep the order
 		unit := rapid.SampledFrom([]string{"long text ", "x", "&amp;", "é", "a b c d e f g h "}).Draw(t, "unit")
-		n := rapid.IntRange(1, 12000/len(unit)).Draw(t, "reps")
+		lim := 12000
+		if rapid.IntRange(0, 4).Draw(t, "huge") == 0 {
+			lim = 250000
+		}
+		n := rapid.IntRange(1, lim/len(unit)).Draw(t, "reps")
 		big := strings.Repeat(unit, n)
 		switch rapid.IntRange(0, 2).Draw(t, "bigKind") {
 		case 0:
@@ -160,7 +164,23 @@ func checkC15(c *Case, r *Rec) error {
 	if err := p.SanitizeReaderToWriter(&chunkReader{data: []byte(in), sizes: sizes, eofWithData: eofWithData}, &w2); err != nil {
 		return violation("", "C15: SanitizeReaderToWriter (io.StringWriter) fails on a fault-free source: %v", err)
 	}
-	whole := p.SanitizeReader(strings.NewReader(in)).String()
+	wholeBuf := p.SanitizeReader(strings.NewReader(in))
+	whole := wholeBuf.String()
+	// results handed to the caller stay what they were while further calls run (no aliasing of
+	// pooled or shared buffers)
+	bBefore, rdBuf := string(b), p.SanitizeReader(bytes.NewReader([]byte(in)))
+	rdBefore := rdBuf.String()
+	other := append(append([]byte{}, interferingInput...), in...)
+	p.SanitizeBytes(other)
+	p.Sanitize(string(other))
+	p.SanitizeReader(bytes.NewReader(other))
+	sharedUGC().SanitizeBytes(other)
+	if string(b) != bBefore {
+		return violation(string(b), "C15: the []byte returned by SanitizeBytes changed after later sanitise calls: %s became %s", q(trunc(bBefore, 150)), q(trunc(string(b), 150)))
+	}
+	if rdBuf.String() != rdBefore || wholeBuf.String() != whole {
+		return violation(rdBuf.String(), "C15: the buffer returned by SanitizeReader changed after later sanitise calls: %s became %s", q(trunc(rdBefore, 150)), q(trunc(rdBuf.String(), 150)))
+	}
 	if rd != whole {
 		return violation(rd, "C15: SanitizeReader depends on how the reader splits the data (chunks %v, EOF with data %v): %s vs unsplit %s", sizes, eofWithData, q(trunc(rd, 200)), q(trunc(whole, 200)))
 	}
